@@ -186,7 +186,7 @@ class GenElab:
         acc = lambda kind, decos: self._with(self.member("p", kind), decos)   # noqa: E731
         fn = lambda name, kind, decos: self._with(self.member(name, kind), decos)   # noqa: E731
         shape = rng.choice(["prop-missing-accessor", "prop-accessor-of-other-base", "inherited-static", "diamond-posts",
-                            "invariant-events", "special-of-second-base", "late-decoration"])
+                            "invariant-events", "special-of-second-base", "late-decoration", "callable-object-on-base"])
         order = rng.choice([[0, 1], [1, 0]])
         if shape == "prop-missing-accessor":
             # one base shows the property without the accessor, the other one with it and with contracts
@@ -217,6 +217,13 @@ class GenElab:
             ops = [self._cls([], [fn("f", "plain", [])], invs=[self._inv(ev())]),
                    self._cls([0], [fn("g", "plain", [])], invs=[self._inv(ev()) for _ in range(rng.choice([1, 2]))]),
                    self._cls([1], rng.choice([[], [fn("__setattr__", "plain", [])]]), invs=rng.choice([[], [self._inv(ev())]]))]
+        elif shape == "callable-object-on-base":
+            # the base's method carries its contracts beneath a decorator that returns a callable *object*
+            # (functools.lru_cache and class-based decorators do); the overriding functions inherit them all the same
+            self.fk += 1
+            ops = [self._cls([], [fn("f", "plain", rng.choice([[req()], [req(), ens()], [ens()]]) + [["foreign", self.fk, "obj"]])]),
+                   self._cls([0], [fn("f", "plain", rng.choice([[], [req()], [ens()]]))]),
+                   self._cls(rng.choice([[0], [1]]), [fn("f", "plain", rng.choice([[], [ens()]]))])]
         elif shape == "late-decoration":
             # a member of a sub-class gets one more contract after the classes exist
             ops = [self._cls([], [fn("f", "plain", rng.choice([[req()], [req(), ens()], [ens()]]))]),
@@ -245,7 +252,7 @@ def GC_render_contract(c, role, lines, ind):
 def py_deco(d, lines, ind):
     import render_checker
     if d[0] == "foreign":
-        return "@W.foreign(%d)" % d[1]
+        return ("@W.foreign_obj(%d)" if len(d) > 2 else "@W.foreign(%d)") % d[1]
     en = "" if d[2] else ", enabled=False"
     if d[0] == "require":
         return "@icontract.require(%s%s)" % (render_checker.render_contract(d[1], "pre", lines, ind), en)
